@@ -5,8 +5,8 @@ VARS = ["ForcedAwaitsWorkers", "GracefulSkipsAwait", "CompleteBeforeJoin", "Term
 INVS = "C06_GracefulWaits C06_GracefulLetsFinish C06_NoDispatchAfterCompletion C06_SignalKinds"
 
 
-def cfg(name, nw, live, stops, timeout, flip=None, spec="Spec", props="Steps", invs=INVS):
-    lines = ["CONSTANTS", "  NW = %d" % nw, "  MaxLive = %d" % live, "  MaxStops = %d" % stops, "  Timeout = %d" % timeout]
+def cfg(name, nw, live, stops, timeout, flip=None, spec="Spec", props="Steps", invs=INVS, blocks=0):
+    lines = ["CONSTANTS", "  NW = %d" % nw, "  MaxLive = %d" % live, "  MaxStops = %d" % stops, "  Timeout = %d" % timeout, "  MaxBlocks = %d" % blocks]
     lines += ["  %s = %s" % (v, "TRUE" if v in (flip or []) else "FALSE") for v in VARS]
     lines += ["SPECIFICATION " + spec]
     if spec == "Spec":
@@ -31,4 +31,8 @@ cfg("NEG_stop_TermIsForced", 1, 1, 1, 2, flip=["TermIsForced"])
 cfg("NEG_stop_SecondStopHangs", 1, 1, 2, 2, flip=["SecondStopHangs"], spec="FairSpec", props="C06_AlwaysCompletes", invs="")
 cfg("NEG_stop_AwaitsLastWorkerOnly", 2, 1, 1, 2, flip=["AwaitsLastWorkerOnly"])
 cfg("NEG_stop_WakeAcceptFirst", 1, 1, 1, 2, flip=["WakeAcceptFirst"])   # defect F8 (as found): the accept thread exits first
+cfg("MC_stop_busy", 2, 1, 1, 2, blocks=1)
+cfg("LIVE_stop_busy", 1, 1, 1, 2, spec="FairSpec", props="C06_AlwaysCompletes", invs="", blocks=1)
+cfg("NEG_stop_ForcedReachBusy", 1, 1, 1, 2, invs="NEG_ForcedNeverCompletesWithBusy", props="", blocks=1)                # must be violated (reachability)
+cfg("NEG_stop_ForcedAwaitsWorkersBusy", 1, 1, 1, 2, flip=["ForcedAwaitsWorkers"], invs="NEG_ForcedNeverCompletesWithBusy", props="", blocks=1)  # must HOLD
 print("stop configs written")
